@@ -669,7 +669,7 @@ class OutputSchemaBuilder(
                 default: Any = graphql.Undefined
                 param_type = field.types[param.name]
                 if is_union_of(param_type, graphql.GraphQLResolveInfo):
-                    break
+                    continue  # not an argument (following parameters still are)
                 param_field = ObjectField(
                     param.name,
                     param_type,
